@@ -1,10 +1,46 @@
 package main
 
-import "golang.org/x/tools/go/ssa"
+import (
+	"go/types"
+
+	"golang.org/x/tools/go/ssa"
+)
 
 func (x *Exec) assertToInterface(st *State, t *ssa.TypeAssert, iv IfaceVal) Val {
-	x.fail("type assertion to interface type is outside the verified subset")
-	return nil
+	// only for interface values of statically known dynamic type: whether that type implements the asserted
+	// interface is decided by the type checker
+	o := x.o
+	id, ok := iv.Tag.ConstInt64()
+	if !ok || iv.Sym != "" {
+		// a value of unknown dynamic type whose static interface type already has every method asked for: the
+		// assertion holds exactly when the value is not nil
+		if _, isIface := t.X.Type().Underlying().(*types.Interface); isIface && types.Implements(t.X.Type(), t.AssertedType.Underlying().(*types.Interface)) {
+			nonNil := o.Not(o.Eq(iv.Tag, o.Int(0)))
+			if t.CommaOk {
+				return TupleVal{x.iteVal(nonNil, iv, IfaceVal{Tag: o.Int(0), Pay: map[int]Val{}}), nonNil}
+			}
+			x.oblige("typeassert", "", []string{"C18.nopanic", "C20.nopanic"}, "interface value is not nil", st.Guard, nonNil)
+			return iv
+		}
+		x.fail("type assertion to interface type on a value of unknown dynamic type is outside the verified subset")
+	}
+	it := t.AssertedType.Underlying().(*types.Interface)
+	impl := false
+	if id != 0 {
+		ct := x.typeByID[int(id)]
+		if ct == nil {
+			x.fail("type assertion: unknown dynamic type id %d", id)
+		}
+		impl = types.Implements(ct, it)
+	}
+	if t.CommaOk {
+		if impl {
+			return TupleVal{iv, o.True()}
+		}
+		return TupleVal{IfaceVal{Tag: o.Int(0), Pay: map[int]Val{}}, o.False()}
+	}
+	x.oblige("typeassert", "", []string{"C18.nopanic", "C20.nopanic"}, "dynamic type implements "+t.AssertedType.String(), st.Guard, o.Bool(impl))
+	return iv
 }
 func (x *Exec) stringToRunes(st *State, s StrVal) Val {
 	x.fail("[]rune(string) not modelled yet")
